@@ -47,8 +47,11 @@ def run(ctx):
         "gorilla/websocket refuses a close frame whose payload exceeds 125 bytes (status code included) and a gorilla client fails a connection whose close reason is not UTF-8: modelled (`WsClose.frame`), tied on every run by the `cf` rows (a bare gorilla server writing reasons of 0..200 bytes)",
         "operation ids reach wsConnection as valid UTF-8 (encoding/json substitutes U+FFFD): hypothesis of `protocol_close_well_formed`; the harness also sends invalid bytes in ids",
     ]
-    ok_extract = ctx.extract("AddUploadGuards", "DecodeSites", "WsCloseReasons")
-    proved = bool(ok_extract) and ctx.prove(props=["GqlgenVerif.Props.C10", "GqlgenVerif.Props.C10Close"])
+    ctx.assumptions += [
+        "request histories: the library's verdict on a query string (gqlparser parser with the configured token limit, validator) and mapstructure's verdict on a persistedQuery extension enter the model `ReqHist` as classes computed by the harness with the same libraries; what reached CreateOperationContext is read off by a passive OperationParameterMutator installed first; the LRU is modelled (most recent first, eviction beyond the capacity) but the APQ store without eviction (histories stay below its 100 entries)",
+    ]
+    ok_extract = ctx.extract("AddUploadGuards", "DecodeSites", "WsCloseReasons", "ParseGate")
+    proved = bool(ok_extract) and ctx.prove(props=["GqlgenVerif.Props.C10", "GqlgenVerif.Props.C10Close", "GqlgenVerif.Props.C10Hist"])
     if ok_extract and not proved:
         ctx.cov["proof_failure"] = ctx.proof_failure
 
@@ -270,6 +273,55 @@ def run(ctx):
                     div.append((r, m, "wl"))
             for w in why:
                 spec_fail.append((r, w))
+        elif k == "hs":
+            minp, obs_s, desc, cfg, detail, pan = r[1:7]
+            obs = [o.split(":") for o in obs_s.split(";")]
+            msteps = minp.split(" ")[3].split(";")
+            mo = m.split(";") if m is not None else None
+            if mo is not None and len(mo) != len(obs):
+                div.append((r, m, "hs: model could not run the history"))
+                mo = None
+            nontriv.add(minp + obs_s)
+            seen_req = {}
+            for j, o in enumerate(obs):
+                site, status, cls, rec, unval, tmp, same, upl, nreach = o
+                rep = detail.split("|")[j] in seen_req
+                seen_req[detail.split("|")[j]] = True
+                branch["hs:%s:%s:%s" % (site.split("/")[0], cls, "repeat" if rep else "first")] += 1
+                why = []
+                if rec != "0":
+                    why.append("recover hook called %s time(s) although no user code panicked" % rec)
+                if unval != "0":
+                    why.append("a document that did not pass validation (a field without Definition) was handed to the executable schema")
+                if cls in ("malformed-response", "recovered-panic", "no-answer", "ws-eof", "ws-timeout", "ws-close=1006", "ws-dial-error"):
+                    why.append("the answer is not a well-formed client error / protocol close: " + cls)
+                if tmp != "0":
+                    why.append("%s entries left in the private TMPDIR" % tmp)
+                if upl == "bad":
+                    why.append("the upload did not reach user code with its bytes / name / content type / own reader")
+                if same != "same":
+                    why.append("the answer differs from the one a server without query cache gives to the same history")
+                if nreach not in ("0", "1"):
+                    why.append("one request reached CreateOperationContext %s times" % nreach)
+                if why:
+                    spec_fail.append((r, "step %d of %d (%s, %s): %s" % (j + 1, len(obs), site, "a repetition of an earlier request" if rep else "first occurrence", "; ".join(why))))
+                    break
+                if mo is not None:
+                    e = mo[j]
+                    bad = False
+                    if e == "x":
+                        bad = nreach != "0"
+                    elif e == "run:valid":
+                        bad = cls in ("parse-error", "no-operation") or cls.startswith("apq-")
+                    elif e.startswith("run:"):
+                        bad = True
+                    else:
+                        bad = cls != e
+                    if bad:
+                        div.append((r, m, "hs: step %d: the model answers %s, the implementation %s" % (j + 1, e, cls)))
+                        break
+        elif k == "hc":
+            spec_fail.append((r, "the harness process running the request histories died: a panic outside every recover (%s)" % unhex(r[2])))
         elif k == "cf":
             branch["cf:" + r[2]] += 1
             obs = "dropped" if r[2] in ("close:1006", "eof") else r[2] + " " + r[3]
@@ -307,6 +359,22 @@ def run(ctx):
                     "input": {"subprotocol": proto, "scenario": scen, "steps": steps, "S_len": len(sid), "S_hex": hs[:600], "S": sid.decode("utf-8", "replace")[:200], "desc": r[7]},
                     "observed": {"frames": r[2][:600], "closed": r[3], "close_reason": unhex(r[4])[:200], "recovers": r[5], "panic": unhex(r[6])},
                     "replay": "websocket %s: %s with S = %d bytes (%s) -> %s, frames %s" % (proto, steps, len(sid), r[7], r[3], r[2][:200])}
+        if k == "hs":
+            cfg = r[4]
+            obs = r[2].split(";")
+            lines = []
+            for j, d in enumerate(r[5].split("|")):
+                site, hb = d.split("=", 1)
+                o = obs[j].split(":")
+                lines.append("%d. %s %r -> %s %s%s" % (j + 1, site, unhex(hb)[:160], o[1], o[2], "" if o[3] == "0" and o[4] == "0" and o[6] == "same" else " [recovers %s, unvalidated %s, %s as without cache]" % (o[3], o[4], o[6])))
+            bad = next((o.split(":") for o in obs if o.split(":")[3] != "0" or o.split(":")[4] != "0" or o.split(":")[6] != "same"), obs[-1].split(":"))
+            return {"shape": {"site": "history", "class": bad[2]},
+                    "input": {"server": "handler.New + every transport + SetQueryCache/APQ/Introspection/ComplexityLimit as in " + cfg, "history": lines, "desc": r[3]},
+                    "observed": {"steps": r[2][:1500], "model_input": r[1][:600], "panic": unhex(r[6])[:600]},
+                    "replay": "request history on ONE server configured like production (%s): %s%s" % (cfg, " ; ".join(lines)[:1200], (" ; panic: " + unhex(r[6])[:300]) if r[6] != "-" else "")}
+        if k == "hc":
+            return {"shape": {"site": "history", "class": "crash"}, "input": {"mode": "hs"}, "observed": unhex(r[3])[:1500],
+                    "replay": "go/harness/c10 -mode hs died: %s" % unhex(r[3])[:600]}
         if k == "cf":
             return {"shape": {"site": "gorilla-close-frame"}, "input": {"reason_len": r[1]}, "observed": r[2],
                     "replay": "gorilla/websocket close frame with a reason of %s bytes -> %s" % (r[1], r[2])}
@@ -317,7 +385,7 @@ def run(ctx):
 
     reported = Counter()
     for r, w in spec_fail:
-        key = (r[0], r[1].split(" ")[0] if r[0] in ("tr", "ws", "wl") else "", w[:40])
+        key = (r[0], r[1].split(" ")[0] if r[0] in ("tr", "ws", "wl") else "", w[:40] if r[0] != "hs" else w.split("): ", 1)[-1][:40])
         reported[key] += 1
         if reported[key] > 2:
             continue
@@ -340,7 +408,7 @@ def run(ctx):
     if ok_extract and not proved:
         if not spec_fail:
             ctx.violation({"kind": "proof", "failing": ctx.proof_failure,
-                           "replay": "theorems of GqlgenVerif.Props.C10 / C10Close no longer check against the regenerated Gen/AddUploadGuards.lean / Gen/DecodeSites.lean / Gen/WsCloseReasons.lean; the directed and seeded search found no failing input"},
+                           "replay": "theorems of GqlgenVerif.Props.C10 / C10Close / C10Hist no longer check against the regenerated Gen/AddUploadGuards.lean / Gen/DecodeSites.lean / Gen/WsCloseReasons.lean / Gen/ParseGate.lean; the directed and seeded search found no failing input"},
                           no_failing_input=True)
     if ok_extract and proved and model is None:
         ctx.violation({"kind": "check-error", "what": "lean driver failed", "detail": ctx.cov.get("driver_failure")}, no_failing_input=True)
@@ -354,13 +422,15 @@ def run(ctx):
     ctx.cov.update({
         "evaluations": len(rows),
         "distinct_nontrivial": len(nontriv),
-        "rule": "au: variable trees (depth<=3) x 1-3 map paths, mostly an existing position then structurally mutated (wrong container kind, out-of-range/negative/huge index, sign and zero spellings, missing variables, dropped prefix) + 60 directed; mp: multipart requests from random trees with prefix-independent paths, mutated (paths, part order/names/duplicates, operations/map JSON shapes, MIME truncation at every 5th offset), MaxUploadSize swept over every byte offset of a body x declared/chunked x MaxMemory in {default,1,-5}, missing TMPDIR; tr: 7 HTTP transports x (valid + directed + mutated + random byte bodies); ws: 2 subprotocols x every message type x 16 payloads, id shapes, raw text/binary frames before and after init; wl: 2 subprotocols x multi-step sequences (duplicate id on an active subscription, query/stop/reuse, unknown field, ping payload, message type) x client string S of every boundary length (0..2, 88..100, 107..109, 120..130, 200..70000 bytes), a 2/3/4-byte rune at every alignment around reason bytes 121..127, multi-byte-only strings, invalid UTF-8, random rune mixtures + corpus/C10/wl.txt; cf: gorilla's control-frame rule for reasons of 0..200 bytes. Non-trivial = distinct case leaving the happy path (error/close outcome, several paths, spill, null/err envelope)",
+        "rule": "au: variable trees (depth<=3) x 1-3 map paths, mostly an existing position then structurally mutated (wrong container kind, out-of-range/negative/huge index, sign and zero spellings, missing variables, dropped prefix) + 60 directed; mp: multipart requests from random trees with prefix-independent paths, mutated (paths, part order/names/duplicates, operations/map JSON shapes, MIME truncation at every 5th offset), MaxUploadSize swept over every byte offset of a body x declared/chunked x MaxMemory in {default,1,-5}, missing TMPDIR; tr: 7 HTTP transports x (valid + directed + mutated + random byte bodies); ws: 2 subprotocols x every message type x 16 payloads, id shapes, raw text/binary frames before and after init; wl: 2 subprotocols x multi-step sequences (duplicate id on an active subscription, query/stop/reuse, unknown field, ping payload, message type) x client string S of every boundary length (0..2, 88..100, 107..109, 120..130, 200..70000 bytes), a 2/3/4-byte rune at every alignment around reason bytes 121..127, multi-byte-only strings, invalid UTF-8, random rune mixtures + corpus/C10/wl.txt; cf: gorilla's control-frame rule for reasons of 0..200 bytes; hs: request HISTORIES on ONE server configured like production (LRU query cache of 1/2/3/1000 entries or MapCache, APQ, introspection, complexity limit none/100/2, parser token limit none/12; all 7 HTTP transports + both websocket subprotocols) next to a twin without query cache: every raw body of the tr alphabet and every websocket payload three times in a row; 7 valid + 45 unparsable / operation-less / schema-invalid documents x every transport three times in a row (with and without complexity limit, MapCache), first over POST then over the other transport and back, with other documents in between under capacity 1 and 2 (eviction); per document the APQ sequence hash-only / register / hash-only x2 / plain / wrong hash / hash-only / register on 5 transports; 14 shapes of the persistedQuery extension twice; the same upload three times interleaved with a bad map path; over-long documents under a token limit; generated: 2-5 distinct requests (documents, mutated documents, mutated raw bodies, APQ variants, the same document over two transports) sent 4-15 times in random order under a random configuration + corpus/C10/hs.txt. Non-trivial = distinct case leaving the happy path (error/close outcome, several paths, spill, null/err envelope)",
         "input_distribution": dict(branch),
         "kinds": dict(kinds),
         "correspondence_divergences": len(div),
         "spec_failures": len(spec_fail),
         "samples": [pick("au", lambda r: r[2].startswith("err")), pick("au", lambda r: r[2].startswith("ok") and ";" in r[1]),
                     pick("mp", lambda r: r[3] == "exec" and r[8] != "-"), pick("mp", lambda r: r[3] == "copy-temp"),
-                    pick("tr", lambda r: " null" in r[1]), pick("ws", lambda r: r[1].endswith(" null")), pick("wl", lambda r: " dup " in r[1] and len(r[1]) > 300)],
-        "sampled_not_proved": ["HTTP/websocket framing of the answers (well-formed JSON / SSE / multipart-mixed / ws frames)", "exact bytes, filename, content type per mapped path and independent seeks (observed in user code on every successful upload)", "every non-subscribe websocket frame"],
+                    pick("tr", lambda r: " null" in r[1]), pick("ws", lambda r: r[1].endswith(" null")), pick("wl", lambda r: " dup " in r[1] and len(r[1]) > 300),
+                    pick("hs", lambda r: r[3].startswith("apq ")), pick("hs", lambda r: r[3].startswith("rand-"))],
+        "sampled_not_proved": ["HTTP/websocket framing of the answers (well-formed JSON / SSE / multipart-mixed / ws frames)", "exact bytes, filename, content type per mapped path and independent seeks (observed in user code on every successful upload)", "every non-subscribe websocket frame",
+                               "request histories: byte equality of every answer with the twin without query cache, recover-hook counter, validated-document check in Exec (observed on the generated and directed histories)"],
     })
